@@ -367,3 +367,35 @@ func swarmRelay(rc *simrt.RunCtx, until time.Duration) relayFaults {
 	rc.Knob("relay", fmt.Sprintf("until=%v drop=%d delay=%d/%v recverr=%d senderr=%d openerr=%d full=%d/%v lat<=%v", until, f.dropPm, f.delayPm, f.delay, f.recvErrPm, f.sendErrPm, f.openErrPm, f.fullPm, f.fullFor, f.latMax))
 	return f
 }
+
+// outage makes the relay fail every stream operation until the given instant
+// (C11's "relay failure" event).
+func (r *relay) outage(until time.Duration) {
+	r.mu.Lock()
+	r.f.until = until
+	r.f.recvErrPm, r.f.sendErrPm, r.f.openErrPm = 1000, 1000, 1000
+	r.f.dropPm, r.f.delayPm, r.f.fullPm = 0, 0, 0
+	// kill the streams that are sitting idle in Recv
+	var wakes []chan struct{}
+	for _, b := range r.boxes {
+		if b.reader != nil && b.reader.dead == nil {
+			b.reader.dead = status.Error(codes.Unavailable, "simulated relay outage")
+			b.reader = nil
+		}
+		wakes = append(wakes, b.wake)
+	}
+	r.mu.Unlock()
+	for _, w := range wakes {
+		select {
+		case w <- struct{}{}:
+		default:
+		}
+	}
+	r.rc.Fault("relay-outage")
+}
+
+func (r *relay) sidCount(id string) int {
+	r.mu.Lock()
+	defer r.mu.Unlock()
+	return r.sids[id]
+}
